@@ -305,7 +305,7 @@ package state
 //@ ghost var c10Saved: int
 //@ func (*StateDB).IntermediateRoot props C10
 //@ requires st != nil
-//@ modifies all, c10Saved, c10TrieK, c10TrieW, c10TrieDel, c10Trim, c10StakeW, c10StakeArg, c10StakeEnc, c10AcctEnc
+//@ modifies all, c10Saved, c10TrieK, c10TrieW, c10TrieDel, c10Trim, c10StakeW, c10StakeArg, c10StakeEnc, c10RelW, c10AcctEnc, c10Opened
 //@ assert before call (*stateObject).updateRoot: [live-object-written] !obj.deleted      // updateRoot + updateStateObject follow on this path
 //@ assert before call (*StateDB).deleteStateObject: [deleted-object-removed] obj.deleted
 //@ assert before call (*StateDB).updateValidator: [live-validator-written] !val.deleted
@@ -629,6 +629,7 @@ package state
 //@ ghost var c10StakeW: set[biAddress]
 //@ ghost var c10StakeArg: int
 //@ ghost var c10StakeEnc: []byte
+//@ ghost var c10RelW: bool          // the pending-relationship list was handed to the trie (updateKeyedData) by this call
 // builds key|data in a new buffer and hands it to the trie (bytes.Buffer is not modelled): ASSUMED to have no effect on the modelled heap
 //@ func (*StateDB).updateKeyedData props C10
 //@ nobody
@@ -638,8 +639,10 @@ package state
 //@ requires [nonnil] st != nil && st.stakingRecordsDirty != nil
 // frame: byte arrays because of the loop cut over the address-taken local `key` (engine_requests/C10.md R1); st.pendingRelats because `&st.pendingRelats` is boxed
 // into the interface argument of rlp.EncodeToBytes and the engine havocs a field whose address escapes, even into a pure callee (engine_requests/C10.md R8)
-//@ modifies st.stakingRecordsDirty, st.pendingRelatsDirty, st.pendingRelats, all(elems(byte)), c10StakeW, c10StakeArg, c10StakeEnc
+//@ modifies st.stakingRecordsDirty, st.pendingRelatsDirty, st.pendingRelats, all(elems(byte)), c10StakeW, c10StakeArg, c10StakeEnc, c10RelW
 //@ ghost at entry: c10StakeW := emptyset(biAddress)
+//@ ghost at entry: c10RelW := false
+//@ ghost before call (*StateDB).updateKeyedData: c10RelW := true
 //@ ghost before call rlp.EncodeToBytes: c10StakeArg := a0
 //@ ghost after call rlp.EncodeToBytes: c10StakeEnc := ret0
 //@ assert before call (Trie).TryUpdate: [own-trie] recv == st.stakingTrie
@@ -655,6 +658,9 @@ package state
 //@ ensures [only-dirty-records-written] forall k: biAddress :: c10StakeW[k] ==> old(in(k, st.stakingRecordsDirty))
 //@ ensures [dirty-cleared] result == nil ==> len(st.stakingRecordsDirty) == 0 && (forall k: biAddress :: !in(k, st.stakingRecordsDirty))
 //@ ensures [relationships-flag-cleared] result == nil ==> !st.pendingRelatsDirty
+// A clean state flushes NOTHING: the relationship list goes to the trie only when its flag was set (records: [only-dirty-records-written]).
+//@ ensures [relationships-written-only-when-dirty] c10RelW ==> old(st.pendingRelatsDirty)
+//@ ensures [dirty-relationships-written] result == nil && old(st.pendingRelatsDirty) ==> c10RelW
 
 // Pending relationships: the list is saved by updateStakingTrie only when pendingRelatsDirty is set. (*pendingRelationship).Add: thin ASSUMED contract
 // (sort.Search + in-place insertion are not re-proved): it writes the list and the two counters, and changes nothing when it answers false.
@@ -690,3 +696,31 @@ package state
 //@ modifies st.dbErr
 //@ assert before call (Trie).TryDelete: [own-trie] recv == st.trie
 //@ assert before call (Trie).TryDelete: [own-key] off(a0) == 0 && len(a0) == 20 && elems(a0) == stateObject.address
+
+// ---------------------------------------------------------------------------------------------------------------
+// Clause 7: ResetStakingTrie ("two states with the same content have the same roots regardless of ... intermediate-root points"). After the reset the
+// staking side IS the freshly opened empty state: a new trie opened at the zero root, an empty record cache, an empty dirty set, a fresh empty
+// relationship set and a CLEAN relationship flag. With that, the next updateStakingTrie writes nothing ([only-dirty-records-written],
+// [relationships-written-only-when-dirty]): a state with no records and no relationships keeps the empty staking root whatever happened before the reset.
+//@ func (Database).OpenTrie props C10
+//@ trusted
+//@ pure
+//@ ghost var c10Opened: int       // the trie handle returned by the last db.OpenTrie of ResetStakingTrie
+
+//@ func newPendingRelationship props C10
+//@ panics none
+//@ modifies nothing
+//@ ensures [fresh-empty] result != nil && fresh(result) && len(result.r) == 0 &&
+//@     fresh(result.delegatorPendingCount) && len(result.delegatorPendingCount) == 0 && fresh(result.validatorPendingCount) && len(result.validatorPendingCount) == 0 &&
+//@     result.delegatorPendingCount != result.validatorPendingCount
+
+//@ func (*StateDB).ResetStakingTrie props C10
+//@ requires [nonnil] st != nil
+//@ modifies st.stakingTrie, st.stakingRecords, st.stakingRecordsDirty, st.pendingRelats, st.pendingRelatsDirty, c10Opened
+//@ assert before call (Database).OpenTrie: [opens-empty-root] recv == st.db && a0 == zero(common.Hash)
+//@ ghost after call (Database).OpenTrie: c10Opened := ret0
+//@ ensures [new-trie-installed] st.stakingTrie == c10Opened
+//@ ensures [records-cache-empty] st.stakingRecords != nil && fresh(st.stakingRecords) && len(st.stakingRecords) == 0 && (forall k: biAddress :: !in(k, st.stakingRecords))
+//@ ensures [dirty-set-empty] st.stakingRecordsDirty != nil && fresh(st.stakingRecordsDirty) && len(st.stakingRecordsDirty) == 0 && (forall k: biAddress :: !in(k, st.stakingRecordsDirty))
+//@ ensures [relationships-empty-and-clean] st.pendingRelats != nil && fresh(st.pendingRelats) && len(st.pendingRelats.r) == 0 &&
+//@     len(st.pendingRelats.delegatorPendingCount) == 0 && len(st.pendingRelats.validatorPendingCount) == 0 && !st.pendingRelatsDirty
